@@ -444,8 +444,15 @@ func dependsOnBarrier(v ssa.Value, pred func(ssa.Value) bool, barrier func(ssa.V
 		case *ssa.UnOp:
 			if x.Op == token.MUL {
 				if o := origin(x); o != ssa.Value(x) {
-					// local variable in memory with a unique reaching definition
-					return walk(o, depth+1)
+					// local variable in memory with a unique reaching definition of the whole
+					// variable; parts of it may still be updated afterwards (field stores, copy)
+					if walk(o, depth+1) {
+						return true
+					}
+					if al, ok := x.X.(*ssa.Alloc); ok && partialUpdates(al, func(v ssa.Value) bool { return walk(v, depth+1) }) {
+						return true
+					}
+					return false
 				}
 				if walk(x.X, depth+1) {
 					return true
@@ -460,11 +467,14 @@ func dependsOnBarrier(v ssa.Value, pred func(ssa.Value) bool, barrier func(ssa.V
 				return false
 			}
 		}
-		if al, ok := v.(*ssa.Alloc); ok {
-			// whatever is stored into the allocation or its elements/fields
+		_, isAlloc := v.(*ssa.Alloc)
+		_, isMake := v.(*ssa.MakeSlice)
+		if isAlloc || isMake {
+			// whatever is stored into the allocation or its elements/fields, copied into it, or
+			// handed to a method called on it (bytes.Buffer.Write and the like)
 			var refs func(addr ssa.Value, d int) bool
 			refs = func(addr ssa.Value, d int) bool {
-				if addr.Referrers() == nil || d > 3 {
+				if addr.Referrers() == nil || d > 4 {
 					return false
 				}
 				for _, ref := range *addr.Referrers() {
@@ -474,18 +484,31 @@ func dependsOnBarrier(v ssa.Value, pred func(ssa.Value) bool, barrier func(ssa.V
 							return true
 						}
 					case *ssa.IndexAddr:
-						if refs(x, d+1) {
+						if x.X == addr && refs(x, d+1) {
 							return true
 						}
 					case *ssa.FieldAddr:
 						if refs(x, d+1) {
 							return true
 						}
+					case *ssa.Slice:
+						if x.X == addr && refs(x, d+1) {
+							return true
+						}
+					case ssa.CallInstruction:
+						args := x.Common().Args
+						if len(args) > 1 && args[0] == addr && !x.Common().IsInvoke() {
+							for _, a := range args[1:] {
+								if walk(a, depth+1) {
+									return true
+								}
+							}
+						}
 					}
 				}
 				return false
 			}
-			if refs(al, 0) {
+			if refs(v, 0) {
 				return true
 			}
 		}
@@ -673,3 +696,46 @@ func rangedSlice(b *ssa.BasicBlock) (ssa.Value, ssa.Instruction) {
 // resOf returns result i of a return, looking through the stack slot go/ssa spills results to in
 // functions with defers.
 func resOf(ret *ssa.Return, i int) ssa.Value { return origin(ret.Results[i]) }
+
+// partialUpdates visits the values written into parts of an allocation: stores through field or
+// element addresses, copy() into a slice of it, arguments of methods called on a part of it.
+// Stores to the allocation as a whole are not visited.
+func partialUpdates(al *ssa.Alloc, visit func(ssa.Value) bool) bool {
+	var refs func(addr ssa.Value, d int) bool
+	refs = func(addr ssa.Value, d int) bool {
+		if addr.Referrers() == nil || d > 4 {
+			return false
+		}
+		for _, ref := range *addr.Referrers() {
+			switch x := ref.(type) {
+			case *ssa.Store:
+				if x.Addr == addr && d > 0 && visit(x.Val) {
+					return true
+				}
+			case *ssa.IndexAddr:
+				if x.X == addr && refs(x, d+1) {
+					return true
+				}
+			case *ssa.FieldAddr:
+				if refs(x, d+1) {
+					return true
+				}
+			case *ssa.Slice:
+				if x.X == addr && refs(x, d+1) {
+					return true
+				}
+			case ssa.CallInstruction:
+				args := x.Common().Args
+				if len(args) > 1 && args[0] == addr && !x.Common().IsInvoke() && d > 0 {
+					for _, a := range args[1:] {
+						if visit(a) {
+							return true
+						}
+					}
+				}
+			}
+		}
+		return false
+	}
+	return refs(al, 0)
+}
